@@ -140,7 +140,12 @@ func writeReplay(dir string, rf *ReplayFile) (string, error) {
 	if err != nil {
 		return "", err
 	}
-	return p, os.WriteFile(p, b, 0o644)
+	// several workers may find the same fingerprint: write aside and rename, so that the file is always one whole replay
+	tmp := fmt.Sprintf("%s.%d.tmp", p, os.Getpid())
+	if err := os.WriteFile(tmp, b, 0o644); err != nil {
+		return "", err
+	}
+	return p, os.Rename(tmp, p)
 }
 
 // ---------------------------------------------------------------------------------------
